@@ -192,11 +192,19 @@ pub mod boundary {
             let (this, other) = if Arc::as_ptr(&self.inner.0)
                 < Arc::as_ptr(&other.inner.0)
             {
+                #[cfg(feature = "verif-hooks")]
+                super::c16_api::sched_lock(&self.inner.0, "List::eq:self");
                 let this = self.inner.0.lock().unwrap();
+                #[cfg(feature = "verif-hooks")]
+                super::c16_api::sched_lock(&other.inner.0, "List::eq:other");
                 let other = other.inner.0.lock().unwrap();
                 (this, other)
             } else {
+                #[cfg(feature = "verif-hooks")]
+                super::c16_api::sched_lock(&other.inner.0, "List::eq:other");
                 let other = other.inner.0.lock().unwrap();
+                #[cfg(feature = "verif-hooks")]
+                super::c16_api::sched_lock(&self.inner.0, "List::eq:self");
                 let this = self.inner.0.lock().unwrap();
                 (this, other)
             };
